@@ -112,6 +112,7 @@ type FnCtx struct {
 	streqSeen map[string]bool
 	allowLocals bool
 	assertBlk []*ssa.BasicBlock
+	assertOb  map[int]*Obligation // asserts[i] is the assumption "obligation held" of this obligation
 	anc map[*ssa.BasicBlock]map[*ssa.BasicBlock]bool
 	curEdges []string
 	familyOf map[ssa.Value]*family
@@ -290,7 +291,13 @@ func (fc *FnCtx) oblige(kind, label, cond string, pos token.Pos, cl *Clause) *Ob
 	}
 	fc.obls = append(fc.obls, ob)
 	// later obligations may assume this one held (execution would have stopped otherwise)
-	fc.assert(implies(fc.curReach, cond))
+	if f := implies(fc.curReach, cond); f != "true" && f != "" {
+		if fc.assertOb == nil {
+			fc.assertOb = map[int]*Obligation{}
+		}
+		fc.assertOb[len(fc.asserts)] = ob
+		fc.assert(f)
+	}
 	// the assumption is appended after Prefix was taken, so it is not visible to the obligation itself
 	return ob
 }
@@ -556,6 +563,25 @@ func (fc *FnCtx) freshVal(prefix string, t types.Type) Val {
 	// of generality: strings are immutable values); an unknown slice is taken to start at offset 0 of its
 	// backing array (assumption: distinct unknown slices do not overlap at different offsets).
 	normaliseOffsets(t, comps)
+	v := mkVal(t, comps)
+	fc.assert(fc.typeInv(v))
+	return v
+}
+
+// mergeVal is a fresh value that is about to be equated with known values (the result of a phi): its offsets
+// are NOT normalised - equating a literal offset 0 with the offset of `b[4:]` would make the path infeasible and
+// every obligation behind it vacuously true.
+func (fc *FnCtx) mergeVal(prefix string, t types.Type) Val {
+	sorts := sortsOf(t)
+	names := compNames(t)
+	comps := make([]string, len(sorts))
+	for i := range sorts {
+		p := prefix
+		if len(sorts) > 1 {
+			p = prefix + "." + names[i]
+		}
+		comps[i] = fc.fresh(p, sorts[i])
+	}
 	v := mkVal(t, comps)
 	fc.assert(fc.typeInv(v))
 	return v
@@ -923,7 +949,7 @@ func (fc *FnCtx) processBlock(b *ssa.BasicBlock, pos map[*ssa.BasicBlock]int) {
 			if !ok {
 				break
 			}
-			pv := fc.freshVal(phi.Name()+"."+phi.Comment, phi.Type())
+			pv := fc.mergeVal(phi.Name()+"."+phi.Comment, phi.Type())
 			fc.recordExisting(pv)
 			for _, e := range fwd {
 				ev := fc.val(phi.Edges[e.idx])
